@@ -7,7 +7,7 @@ import vlib
 from props import hist, c01
 
 PROP_FILES = ["Properties/C16.v"]
-HARNESS = ["engine"]
+HARNESS = ["engine", "storage"]
 ASSUMPTIONS = c01.ASSUMPTIONS + [
     "dirty pages are flushed before they fill the cache: the harness flushes after every statement, as the 100 ms "
     "timer does between statements (hypothesis of the property)",
@@ -36,6 +36,105 @@ def strip_cache_fields(o):
         # evicted and re-read has it compacted to the live cells
         o["pages"] = [{k: v for k, v in p.items() if k not in ("slots", "offsets")} for p in o["pages"]]
     return o
+
+
+PS_HEADER = """From Mkdb Require Import Model.CaseLib Spec.PStoreSpec.
+Open Scope N_scope.
+Definition pcase := (nat * list hop * list pout)%type.
+(* object identities are not compared: which fetch is a cache miss depends on the (arbitrary) order
+   in which a flush visits dirty pages; contents and refusals are *)
+Definition pout_eqb (a b : pout) : bool :=
+  match a, b with
+  | PObj _ c, PObj _ c' => N.eqb c c'
+  | PRefused, PRefused | PUnit, PUnit => true
+  | _, _ => false
+  end.
+Definition in_discipline (c : pcase) : bool :=
+  let '(cap, ops, _) := c in ok_run (ps_init cap) [] (fst (hrun (ps_init cap) [] ops)).
+Definition ps_model_agrees (c : pcase) : bool :=
+  let '(cap, ops, obs) := c in
+  negb (in_discipline c) || list_eqb pout_eqb (snd (hrun (ps_init cap) [] ops)) obs.
+(* the property on the observed behaviour: every fetch returns what the unbounded reference holds *)
+Fixpoint href_ok (m : amap) (ops : list hop) (obs : list pout) : bool :=
+  match ops, obs with
+  | [], [] => true
+  | op :: r, o :: ro =>
+      match op, o with
+      | HFetch k, PObj _ c => N.eqb c (ref_get k m)
+      | _, _ => true
+      end &&
+      href_ok (match op with HAlloc k c => aset k c m | HModify k c => aset k c m | _ => m end) r ro
+  | _, _ => false
+  end.
+Definition ps_spec (c : pcase) : bool :=
+  let '(cap, ops, obs) := c in negb (in_discipline c) || href_ok [] ops obs.
+"""
+
+
+def pstore_cases(rng, n):
+    cases = []
+    for _ in range(n):
+        cap = rng.choice([3, 4, 6, 8])
+        ops = []
+        nkeys = 0
+        careless = rng.random() < 0.2     # sometimes modify without fetching first (stale pointers)
+        for _ in range(rng.randint(10, 60)):
+            r = rng.random()
+            if r < 0.22 or nkeys == 0:
+                nkeys += 1
+                ops.append([1, nkeys, rng.randrange(1, 1000)])
+                if not careless or rng.random() < 0.5:
+                    ops.append([2, nkeys, rng.randrange(1, 1000)])     # markDirty right after the allocation
+            elif r < 0.5:
+                ops.append([0, rng.randint(1, nkeys)])
+            elif r < 0.85:
+                k = rng.randint(1, nkeys)
+                if not careless:
+                    ops.append([0, k])
+                ops.append([2, k, rng.randrange(1, 1000)])
+            else:
+                ops.append([3])
+        cases.append({"cap": cap, "ops": ops})
+    return cases
+
+
+def pstore_check(ctx, out):
+    n = 200 if ctx.tier == "quick" else 2000
+    cases = pstore_cases(ctx.rng, n)
+    ok, outs, lg = vlib.run_driver_parallel(ctx.bins["storage"], "pstore", cases, nshards=8)
+    if not ok or len(outs) != len(cases):
+        raise RuntimeError("pstore driver failed: " + lg[-2000:])
+    terms = []
+    for c, o in zip(cases, outs):
+        ops = []
+        obs = []
+        prev_order = []
+        for op, r in zip(c["ops"], o["res"]):
+            if op[0] == 0:
+                ops.append("HFetch %d" % op[1])
+                obs.append("PRefused" if r and r[0] < 0 else "PObj %d %d" % (r[0], r[1]))
+            elif op[0] == 1:
+                ops.append("HAlloc %d %d" % (op[1], op[2]))
+                obs.append("PRefused" if r and r[0] < 0 else "PObj %d %d" % (r[0], r[1]))
+            elif op[0] == 2:
+                ops.append("HModify %d %d" % (op[1], op[2]))
+                obs.append("PUnit")
+            else:
+                # the pages now at the front (reversed) were visited in that order; passing all
+                # resident keys is harmless: clean ones are skipped by the model
+                ops.append("HFlush %s" % hist.cq_list(str(k) for k in reversed(r)))
+                obs.append("PUnit")
+        terms.append("(%d%%nat, %s, %s)" % (c["cap"], hist.cq_list(ops), hist.cq_list(obs)))
+    okc, res, lg = vlib.run_coq_cases("c16_pstore", PS_HEADER, terms, "pcase",
+                                      {"PM": "ps_model_agrees", "PS": "ps_spec", "OUT": "in_discipline"}, shard=100)
+    if not okc:
+        raise RuntimeError("coq evaluation failed: " + lg[-3000:])
+    for i in res["PS"][:2]:
+        out["spec_violations"].append({"pstore_case": cases[i], "observed": outs[i]["res"],
+                                       "what": "a fetch returned a content different from the unbounded-cache reference although the run respects the discipline"})
+    for i in res["PM"][:2]:
+        out["model_mismatches"].append({"pstore_case": cases[i], "observed": outs[i]["res"]})
+    return len(cases), len(cases) - len(res["OUT"])
 
 
 def run(ctx):
@@ -95,7 +194,9 @@ def run(ctx):
                                        "what": "table specification rejects the run at cache=%d" % small})
     for i in mm[:2]:
         out["model_mismatches"].append({"events": [list(x) for x in evs[i]], "cache": small})
+    nps, nps_in = pstore_check(ctx, out)
     ctx.report.coverage.update({
+        "page_store_traces": nps, "page_store_traces_within_discipline": nps_in,
         "evaluations": len(cases) * len(caps),
         "distinct_nontrivial": evictions_seen,
         "rule": "each of %d histories (flush after every statement) at cache capacities %s; non-trivial = a page dump taken "
